@@ -88,9 +88,22 @@ def body_canon(case, rec):
     again = _canon(backend, k, out1)
     if again != out1:
         raise Violation("fixed-point", f"{backend}: canonicalise({out1}) = {again}")
+    # one canonicaliser object used for several calls (the class is chainable and keeps per-call state): every call
+    # must give what a fresh object gives, also when the same reaction is submitted twice in a row
+    from synkit.Chem.Reaction.canon_rsmi import CanonRSMI
+
+    inst = CanonRSMI(backend=backend, wl_iterations=k)
+    fresh_v2 = _canon(backend, k, v2)
+    for step, (inp, want) in enumerate(((v1, out1), (v1, out1), (v2, fresh_v2), (v2, fresh_v2), (v1, out1))):
+        got = inst.canonicalise(inp).canonical_rsmi
+        if got != want:
+            raise Violation(
+                "instance-reuse",
+                f"{backend}: call {step + 1} on one CanonRSMI object (inputs v1,v1,v2,v2,v1) returns {got}, a fresh object returns {want} for {inp}",
+            )
     # independence last: a hit on a recorded finding must not hide the clauses above
     if rigid:
-        out2 = _canon(backend, k, v2)
+        out2 = fresh_v2
         if out2 != out1:
             raise Violation(
                 f"independence-{backend}",
